@@ -178,6 +178,7 @@ func TestC07(t *testing.T) {
 		"and two frames with a wrong signature (which must be refused and must leave the window untouched) to depth D on fresh readers, plus random histories (with forged future-dated frames injected) of length 50..500 with steps drawn relative to the current maximum (+-1, +-(10^6-1), +-10^6, +-(10^6+1), far); every accept/refuse " +
 		"decision compared with a sequential window model. writers: signed write histories on streamwriter.Writer, frame.Writer.WriteMessage and Node channels; every timestamp inside " +
 		"[ticks(before call), ticks(after call)] by the harness clock and non-decreasing per link. distinct = distinct histories")
+	rep.RuleAdd("Also: links used in both directions on which frames dated ahead of the local clock (1 s, 1 h, 2^48-1) were accepted before writing (frame.ReadWriter and node channels); writes packed around second boundaries on many OS threads; a second child process in another time zone.")
 	rep.Assume("wall clock is not stepped backwards during the run (not injected: the two clauses of the statement would contradict each other)")
 	seed := vh.Seed()
 	if os.Getenv("VERIF_SHARD") == "1" {
